@@ -73,6 +73,8 @@ MUST_OBSERVE = [
     "future_resumes_compared",
     "source_probe_cross_deliveries",
     "sent_while_target_down_delivered_after_restart",
+    "private_reference_cases",
+    "permuted_partition_order_cases",
 ]
 
 NS = 1_000_000_000
@@ -534,6 +536,18 @@ def _decorate(rng: random.Random, case: dict, profile: str, weff: float, last_pi
                     if rng.random() < 0.25:
                         case["end_ns"] = bk + da
 
+    # -- wiring: where an entity keeps the references to the entities it sends to (public dict, private dict,
+    #    private list, one private attribute per target) and in which order the partitions are listed
+    if profile == "wiring" or rng.random() < 0.3:
+        styles = ["private-dict", "private-list", "private-attr"] + ([] if profile == "wiring" else ["public", "public"])
+        case["peer_style"] = {e: rng.choice(styles) for e in sorted(part_of)}
+    if profile == "wiring" or rng.random() < 0.5:
+        order = list(range(len(case["parts"])))
+        rng.shuffle(order)
+        if profile == "wiring" and rng.random() < 0.3:
+            order.reverse()
+        case["order"] = order
+
     if flags:
         case["flags"] = flags
     if cancels:
@@ -790,6 +804,33 @@ def _entity_cls():
                 self._plog.append(("r", now, pid))
             return self._emit(r) if r else None
 
+        def _peer(self, name):
+            """The entity this one sends to, wherever the case's wiring style keeps the reference."""
+            ent = self.peers.get(name) or self._hidden_peers.get(name)
+            if ent is None:
+                ent = getattr(self, "_downstream_" + name, None)
+            if ent is None:
+                pd = getattr(self, "_peers", None)
+                ent = pd.get(name) if pd else None
+            if ent is None:
+                ent = next(e for e in getattr(self, "_peer_list", ()) if e.name == name)
+            return ent
+
+        def wire(self, name, ent, style):
+            if style == "private-dict":
+                if not hasattr(self, "_peers"):
+                    self._peers = {}
+                self._peers[name] = ent
+            elif style == "private-list":
+                if not hasattr(self, "_peer_list"):
+                    self._peer_list = []
+                if ent not in self._peer_list:
+                    self._peer_list.append(ent)
+            elif style == "private-attr":
+                setattr(self, "_downstream_" + name, ent)
+            else:
+                self.peers[name] = ent
+
         def _emit(self, r):
             now = self._clock.now
             out = []
@@ -805,7 +846,7 @@ def _entity_cls():
                 ev = Event(
                     time=t,
                     event_type=typ,
-                    target=self.peers.get(tgt) or self._hidden_peers[tgt],
+                    target=self._peer(tgt),
                     daemon=bool(self._flags.get(str(cpid), {}).get("daemon")),
                     context={"metadata": {"pid": cpid}},
                 )
@@ -868,7 +909,7 @@ def _build_entities(case, sequential: bool):
         if src is None:
             continue
         for _d, tgt, _typ, _cpid in r["out"]:
-            ents[src].peers[tgt] = ents[tgt]
+            ents[src].wire(tgt, ents[tgt], (case.get("peer_style") or {}).get(src, "public"))
     return ents, plogs, part_of
 
 
@@ -1186,6 +1227,8 @@ def run_parallel(case, perturb_seed=None):
         SimulationPartition(name=f"P{p}", fault_schedule=_fault_schedule(case, names), **_members(case, ents, names))
         for p, names in enumerate(case["parts"])
     ]
+    if case.get("order"):  # the order in which the partitions are LISTED (names and logs keep their index)
+        partitions = [partitions[p] for p in case["order"]]
     out = {"exc": None, "exc_type": None, "exc_text": None, "status": "completed", "barriers": [], "lines": 0, "yields": 0}
     tt = _TTCapture()
     lg = logging.getLogger("happysimulator.core.simulation")
@@ -1570,6 +1613,9 @@ def run_linked(case: dict) -> Result:
         sum(1 for pl in seq["plogs"] for r in pl if r[0] == "c") + sum(1 for f in fl.values() if f.get("cancelled")),
     )
     res.count("duplicate_link_cases", int(len({(l[0], l[1]) for l in case["links"]}) < len(case["links"])))
+    ps_ = case.get("peer_style") or {}
+    res.count("private_reference_cases", int(any(v != "public" for v in ps_.values())))
+    res.count("permuted_partition_order_cases", int(bool(case.get("order")) and case["order"] != sorted(case["order"])))
     if case.get("faults"):
         dw = _down_windows(case)
         info1, _ = _script_index(case)
@@ -1836,14 +1882,15 @@ FAMILIES = {
     "futures": Family("futures", gen_profile("futures"), run_linked, shrink=shrink_script, case_timeout=120.0),
     "members": Family("members", gen_profile("members"), run_linked, shrink=shrink_script, case_timeout=120.0),
     "faults": Family("faults", gen_profile("faults"), run_linked, shrink=shrink_script, case_timeout=120.0),
+    "wiring": Family("wiring", gen_profile("wiring"), run_linked, shrink=shrink_script, case_timeout=120.0),
     "independent": Family("independent", gen_independent, run_independent, case_timeout=120.0),
     "config": Family("config", gen_config, run_config, case_timeout=60.0),
 }
 
 BUDGET = {
     "quick": {
-        "linked": 95,
-        "boundary": 70,
+        "linked": 85,
+        "boundary": 65,
         "idle": 24,
         "far_epoch": 40,
         "latency_link": 40,
@@ -1854,6 +1901,7 @@ BUDGET = {
         "futures": 40,
         "members": 30,
         "faults": 40,
+        "wiring": 30,
         "independent": 50,
         "config": 30,
     },
@@ -1870,6 +1918,7 @@ BUDGET = {
         "futures": 600,
         "members": 400,
         "faults": 500,
+        "wiring": 400,
         "independent": 600,
         "config": 100,
     },
